@@ -20,7 +20,7 @@ Ev == T[l + 1]
 
 TInit == /\ Init
          /\ tid \in 1..Len(Traces) /\ l = 0
-         /\ (MW >= 2 => writer = T[1].writer)
+         /\ ((MW >= 2 /\ Cardinality(Active) >= 2) => writer = T[1].writer)
          /\ TLCSet(tid, 0) /\ TLCSet(1000 + tid, FALSE)
 
 Consume == l < Len(T) /\ l' = l + 1 /\ UNCHANGED tid
